@@ -175,17 +175,19 @@ impl<'a> Tr<'a> {
             Expr::Index(ix) if matches!(self.pure(&ix.expr, env, None).map(|b| b.ty), Ok(Ty::Slice(_))) => {
                 // `s[i]` on a slice of integers (Rust panics out of range: 0 here)
                 let b = self.pure(&ix.expr, env, None)?;
-                if !matches!(&b.ty, Ty::Slice(t) if t.is_int()) {
-                    return Err(unsupported(e, "indexing a slice whose elements are not integers"));
-                }
-                let us = Ty::int(IntTy::Usize);
-                let i = self.pure(&ix.index, env, Some(&us))?;
-                join(&i.ty, &us).map_err(|m| unsupported(e, &m))?;
                 let elem = match &b.ty {
                     Ty::Slice(t) => (**t).clone(),
                     _ => unreachable!(),
                 };
-                Ok(Val { s: format!("(Casts.slice_idx {} {})", b.s, i.s), ty: elem })
+                let us = Ty::int(IntTy::Usize);
+                let i = self.pure(&ix.index, env, Some(&us))?;
+                join(&i.ty, &us).map_err(|m| unsupported(e, &m))?;
+                match &elem {
+                    t if t.is_int() => Ok(Val { s: format!("(Casts.slice_idx {} {})", b.s, i.s), ty: elem }),
+                    Ty::Option(_) => Ok(Val { s: format!("(Casts.slice_nth None {} {})", b.s, i.s), ty: elem }),
+                    Ty::Bool => Ok(Val { s: format!("(Casts.slice_nth false {} {})", b.s, i.s), ty: elem }),
+                    _ => Err(unsupported(e, "indexing a slice whose elements are not integers, bool or Option")),
+                }
             }
             Expr::Index(ix) => {
                 let b = self.pure(&ix.expr, env, None)?;
